@@ -372,7 +372,7 @@ def run_op(h, op, probes, snapshot0):
         def sub():
             child = type("C05Child", (h.Model,), {"__annotations__": {"zz": int}, "__module__": __name__})
             child.to_schema()
-            child.validate(h.obj(probes[0]), lazy=True)
+            _safe(lambda: child.validate(h.obj(probes[0]), lazy=True))
         attempt(sub)
     elif name == "model_edit_returned":
         def edit():
@@ -798,7 +798,7 @@ def strat_history():
 
 
 FAMILIES = [
-    Family("history", evaluate, strategy=strat_history, n_quick=100, n_thorough=2000, shards_quick=8, shards_thorough=16,
+    Family("history", evaluate, strategy=strat_history, n_quick=100, n_thorough=1200, shards_quick=8, shards_thorough=16,
            required_labels=["kind=frame", "kind=model", "kind=series", "validate=accept", "validate=reject",
                             "fail-then-op", "serialise-then-use", "op=statistics", "op=to_yaml", "op=to_script",
                             "op=rename_columns", "op=component_validate", "has_regex", "has_tz_agnostic",
